@@ -31,6 +31,7 @@
 #ifdef HAVE_POLL_H
 #  include <poll.h>
 #endif
+#include <limits.h>
 
 static ares_bool_t ares_evsys_poll_init(ares_event_thread_t *e)
 {
@@ -92,6 +93,12 @@ static size_t ares_evsys_poll_wait(ares_event_thread_t *e,
     }
   }
   ares_free(fdlist);
+
+  /* A timeout that does not fit in an int would turn negative, that is into an
+   * indefinite wait: wake up early instead, the caller recalculates. */
+  if (timeout_ms > INT_MAX) {
+    timeout_ms = INT_MAX;
+  }
 
   rv = poll(pollfd, (nfds_t)num_fds, (timeout_ms == 0) ? -1 : (int)timeout_ms);
   if (rv <= 0) {
